@@ -145,6 +145,138 @@ Example C15_nonvacuous :
   /\ honest_hist Z.eqb (fun c => c) (fun k => k) (fun c => Z.eqb c 9) init ops.
 Proof. vm_compute. repeat split; reflexivity. Qed.
 
+(* ------------------------------------------------------------------------
+   NON-VACUITY (audit): every theorem APPLIED to a concrete instance with a NON-identity compression
+   (classes are integers, compress c = c + 100, decompress k = k - 100), an oracle that is true on one
+   class and false on the others, and a 9-step history with three classes (new label, repeated label,
+   cache miss, cache hit, honest set_empty, add). *)
+Require Import Lia.
+Definition zc (c : Z) : Z := c + 100.
+Definition zd (k : Z) : Z := k - 100.
+Definition zo (c : Z) : bool := c =? 9.
+Lemma zdc : forall c, zd (zc c) = c. Proof. intros c; unfold zd, zc; lia. Qed.
+Definition zops : list (@op Z) :=
+  [OpGetLabel (KC 7); OpGetLabel (KC 9); OpGetLabel (KC 7); OpIsEmpty 9 None; OpIsEmpty 9 (Some 1);
+   OpContains (KI 2); OpContains (KI (-1)); OpSetEmpty (KC 7) false; OpAdd 5].
+Notation zreach ops := (run_state Z.eqb zc zd zo init ops).
+Example zops_state :
+  exec Z.eqb zc zd zo init zops =
+  (mk [107; 109; 105] [(107, 0); (109, 1); (105, 2)] [Some false; Some true; None] 1,
+   [RLabel 0; RLabel 1; RLabel 0; RBool true; RBool true; RBool false; RBool false; RNone; RNone]).
+Proof. vm_compute; reflexivity. Qed.
+Lemma zops_honest : honest_hist Z.eqb zc zd zo init zops.
+Proof. vm_compute. repeat split; reflexivity. Qed.
+
+Example C15_lists_aligned_nonvacuous : WF (zreach zops).
+Proof. exact (C15_lists_aligned Z.eqb Z.eqb_eq zc zd zdc zo zops). Qed.
+(* WF discriminates: a database with a repeated class is not well formed *)
+Example C15_lists_aligned_near_miss : ~ WF (mk [107; 107] [(107, 0); (107, 1)] [None; None] 0).
+Proof. intros (_ & _ & N). inversion N as [|x l Hx _]. apply Hx. left; reflexivity. Qed.
+
+(* both branches of the disjunction: a known class keeps its label and the database; an unknown class
+   gets the next dense label 3 *)
+Example C15_get_label_dense_nonvacuous :
+  (exists s' l, step Z.eqb zc zd zo (zreach zops) (OpGetLabel (KC 9)) = (s', RLabel l) /\
+     label_of Z.eqb zc s' 9 = Some l /\
+     ((label_of Z.eqb zc (zreach zops) 9 = Some l /\ s' = zreach zops) \/
+      (label_of Z.eqb zc (zreach zops) 9 = None /\ l = zlen (classes (zreach zops))))) /\
+  (exists s' l, step Z.eqb zc zd zo (zreach zops) (OpGetLabel (KC 4)) = (s', RLabel l) /\
+     label_of Z.eqb zc s' 4 = Some l /\
+     ((label_of Z.eqb zc (zreach zops) 4 = Some l /\ s' = zreach zops) \/
+      (label_of Z.eqb zc (zreach zops) 4 = None /\ l = zlen (classes (zreach zops))))).
+Proof.
+  split.
+  - exact (C15_get_label_dense Z.eqb Z.eqb_eq zc zd zdc zo zops 9).
+  - exact (C15_get_label_dense Z.eqb Z.eqb_eq zc zd zdc zo zops 4).
+Qed.
+Example C15_get_label_dense_branches :
+  snd (step Z.eqb zc zd zo (zreach zops) (OpGetLabel (KC 9))) = RLabel 1 /\
+  label_of Z.eqb zc (zreach zops) 9 = Some 1 /\
+  snd (step Z.eqb zc zd zo (zreach zops) (OpGetLabel (KC 4))) = RLabel 3 /\
+  label_of Z.eqb zc (zreach zops) 4 = None.
+Proof. repeat split; vm_compute; reflexivity. Qed.
+
+(* class 9 got label 1 in the first two steps and keeps it over the other seven *)
+Example C15_label_stable_nonvacuous :
+  label_of Z.eqb zc (run_state Z.eqb zc zd zo (zreach (firstn 2 zops)) (skipn 2 zops)) 9 = Some 1.
+Proof.
+  apply (C15_label_stable Z.eqb Z.eqb_eq zc zd zdc zo (firstn 2 zops) (skipn 2 zops) 9 1).
+  vm_compute; reflexivity.
+Qed.
+
+Example C15_label_injective_nonvacuous :
+  forall c, label_of Z.eqb zc (zreach zops) c = Some 2 -> c = 5.
+Proof.
+  intros c H. apply (C15_label_injective Z.eqb Z.eqb_eq zc zd zdc zo zops c 5 2 H). vm_compute; reflexivity.
+Qed.
+
+Example C15_labels_are_0_to_n_nonvacuous :
+  (0 <= 2 < zlen (classes (zreach zops))) /\
+  (exists k, nth_error (classes (zreach zops)) (Z.to_nat 1) = Some k /\
+             dict_get Z.eqb (dict (zreach zops)) k = Some 1).
+Proof.
+  destruct (C15_labels_are_0_to_n Z.eqb Z.eqb_eq zc zd zdc zo zops) as (H1 & H2). split.
+  - apply (H1 5 2). vm_compute; reflexivity.
+  - apply (H2 1). vm_compute. split; [discriminate|reflexivity].
+Qed.
+
+(* the round trip through the non-identity compression: label 1 -> key 109 -> class 9 *)
+Example C15_get_class_get_label_nonvacuous :
+  step Z.eqb zc zd zo (zreach zops) (OpGetClass (KI 1)) = (zreach zops, RClass 9).
+Proof.
+  apply (C15_get_class_get_label Z.eqb Z.eqb_eq zc zd zdc zo zops 9 1). vm_compute; reflexivity.
+Qed.
+
+Example C15_contains_total_nonvacuous :
+  snd (step Z.eqb zc zd zo (zreach zops) (OpContains (KI 2))) = RBool true /\
+  snd (step Z.eqb zc zd zo (zreach zops) (OpContains (KI 3))) = RBool false /\
+  snd (step Z.eqb zc zd zo (zreach zops) (OpContains (KI (-1)))) = RBool false /\
+  snd (step Z.eqb zc zd zo (zreach zops) (OpContains (KC 5))) = RBool true /\
+  snd (step Z.eqb zc zd zo (zreach zops) (OpContains (KC 105))) = RBool false.
+Proof.
+  split; [|split; [|split; [|split]]].
+  - rewrite (proj1 (C15_contains_total Z.eqb Z.eqb_eq zc zd zdc zo zops 2 0)). vm_compute; reflexivity.
+  - rewrite (proj1 (C15_contains_total Z.eqb Z.eqb_eq zc zd zdc zo zops 3 0)). vm_compute; reflexivity.
+  - rewrite (proj1 (C15_contains_total Z.eqb Z.eqb_eq zc zd zdc zo zops (-1) 0)). vm_compute; reflexivity.
+  - rewrite (proj2 (C15_contains_total Z.eqb Z.eqb_eq zc zd zdc zo zops 0 5)). vm_compute; reflexivity.
+  - rewrite (proj2 (C15_contains_total Z.eqb Z.eqb_eq zc zd zdc zo zops 0 105)). vm_compute; reflexivity.
+Qed.
+
+(* an unknown label (3) and a negative one (-1, which plain list indexing would wrap to the last class) *)
+Example C15_unknown_label_rejected_nonvacuous :
+  step Z.eqb zc zd zo (zreach zops) (OpGetClass (KI 3)) = (zreach zops, RErr KeyError) /\
+  step Z.eqb zc zd zo (zreach zops) (OpGetClass (KI (-1))) = (zreach zops, RErr KeyError).
+Proof.
+  split.
+  - apply (C15_unknown_label_rejected Z.eqb Z.eqb_eq zc zd zdc zo zops 3). vm_compute. intros [_ H]. discriminate.
+  - apply (C15_unknown_label_rejected Z.eqb Z.eqb_eq zc zd zdc zo zops (-1)). vm_compute. intros [H _]. apply H; reflexivity.
+Qed.
+
+(* the history is honest; afterwards is_empty answers the class's own answer, both from the cache
+   (class 9, with its own label) and by a fresh oracle call (class 5, no label passed) *)
+Example C15_empty_cache_nonvacuous :
+  EmptyOK zd zo (zreach zops) /\ true = zo 9 /\ false = zo 5.
+Proof.
+  destruct (C15_empty_cache Z.eqb Z.eqb_eq zc zd zdc zo zops zops_honest) as (E & H).
+  split; [exact E|split].
+  - apply (H 9 (Some 1) (zreach zops) true); vm_compute; reflexivity.
+  - apply (H 5 None (fst (step Z.eqb zc zd zo (zreach zops) (OpIsEmpty 5 None))) false);
+      [exact Logic.I|vm_compute; reflexivity].
+Qed.
+(* near miss: after a DISHONEST set_empty the cache lies, so the hypothesis is needed *)
+Example C15_empty_cache_near_miss :
+  let ops := [OpGetLabel (KC 7); OpSetEmpty (KC 7) true] in
+  snd (step Z.eqb zc zd zo (zreach ops) (OpIsEmpty 7 None)) = RBool true /\ zo 7 = false /\
+  ~ honest_hist Z.eqb zc zd zo init ops.
+Proof. vm_compute. split; [reflexivity|split; [reflexivity|]]. intros (_ & H & _). discriminate. Qed.
+
+Example C15_oracle_once_per_label_nonvacuous :
+  (ncalls (zreach zops) <= nset (zreach zops))%nat /\ ncalls (zreach zops) = 1%nat /\ nset (zreach zops) = 2%nat.
+Proof.
+  split; [exact (C15_oracle_once_per_label Z.eqb Z.eqb_eq zc zd zdc zo zops zops_honest)|].
+  split; vm_compute; reflexivity.
+Qed.
+
 Print Assumptions C15_lists_aligned.
 Print Assumptions C15_get_label_dense.
 Print Assumptions C15_label_stable.
